@@ -1,6 +1,6 @@
-import Klong.Model.C02
+import Klong.Model.C02Ext
 open Klong
 
 def main (_args : List String) : IO UInt32 := do
-  Wire.loop (← IO.getStdin) (← IO.getStdout) C02.handle C02.init
+  Wire.loop (← IO.getStdin) (← IO.getStdout) C02.handleX C02.init
   return 0
